@@ -1,5 +1,6 @@
 import Geo.Props.C17
 import Geo.Props.C17b
+import Geo.Props.C17c
 #print axioms Geo.fanTerm_is_det
 #print axioms Geo.T17_fan_eq_shoelace
 #print axioms Geo.T17_crs_antisymm
@@ -23,3 +24,5 @@ import Geo.Props.C17b
 #print axioms Geo.foldl_vadd_pairs
 #print axioms Geo.centroidNum_cycle
 #print axioms Geo.T17_centroid_fan
+#print axioms Geo.T17_circumcenter_equidistant
+#print axioms Geo.T17_circumcenter_edge_choice
